@@ -13,6 +13,7 @@ import RtenVerif.Lemmas.SliceCopy
 import RtenVerif.Lemmas.Append
 import RtenVerif.Props.C08
 import RtenVerif.Lemmas.WFOwned
+import RtenVerif.Lemmas.Copy
 
 /-!
 # C09 — Layout transformations match a reference array model
@@ -1659,6 +1660,19 @@ theorem c09_state_chain (ops : List TOp) (t : TState) (hwf : WF t.view)
 example : (chainTL [.view .tr, .tc, .rs [6], .view (.sl [.range ⟨1, none, 2⟩])]
       ⟨[0, 1, 2, 3, 4, 5], ⟨0, 6, [(2, 3), (3, 1)]⟩⟩).map TState.arr =
     .ok ⟨[3], [3, 4, 5]⟩ := by rfl
+
+/-! ## The blocked copy loop (`copy_blocked`) -/
+
+/-- **C09 copy_blocked**: the write-by-write model of the 64×64-block / 4×4-tile loop nest
+(including the transposing kernel, used when the row stride is 1, and the narrow / short edge
+tiles) fills a `rows × cols` row-major buffer with `dest[r][c] = src[r·row_stride + c·col_stride]`
+for every `r < rows`, `c < cols` — every element written, none wrongly.  The model's output is
+compared with the real `to_vec` by the harness (`CB` requests). -/
+theorem c09_copy_blocked (rows cols rs cs : Nat) (src : Nat → Nat) :
+    (Copy.copyBlocked rows cols rs cs src).length = rows * cols ∧
+    ∀ r c, r < rows → c < cols →
+      (Copy.copyBlocked rows cols rs cs src).getD (r * cols + c) 0 = src (r * rs + c * cs) :=
+  Copy.copyBlocked_correct rows cols rs cs src
 
 /-! ## T3: slice arithmetic agrees with the NumPy / CPython definition
 
